@@ -60,7 +60,11 @@ class Part(object):
             self.outcomes.add(o if isinstance(o, (str, int)) else stable_hash(o))
 
     def merge(self, other):
-        self.counters.update(other.counters)
+        for k, v in other.counters.items():
+            if k.startswith('max_'):
+                self.counters[k] = max(self.counters[k], v)
+            else:
+                self.counters[k] += v
         # keep at most a handful of witnesses per signature, all signatures
         per = collections.Counter(v['sig'] for v in self.violations)
         for v in other.violations:
@@ -97,6 +101,9 @@ class Ctx(Part):
         seq = list(seq)
         self.rng.shuffle(seq)
         return seq
+
+    def pool(self, jobs=None):
+        return multiprocessing.get_context('fork').Pool(jobs or NCPU)
 
     def pmap(self, func, units, chunksize=1, jobs=None, collect=None):
         """Run func(unit) -> Part for each unit on a fork pool, merge in unit order."""
